@@ -113,6 +113,35 @@ Fixpoint rs_bsearch_fuel {A} (fuel : nat) (f : A -> res comparison) (l : list A)
 Definition rs_binary_search_by {A} (f : A -> res comparison) (l : list A) : res (rresult nat nat) :=
   rs_bsearch_fuel (S (length l)) f l 0%nat (length l).
 
+(* core::char on scalar values and UTF-16 code units (N) *)
+Local Open Scope N_scope.
+(* char::from_u32: Some for a Unicode scalar value, None for a surrogate or a value above U+10FFFF *)
+Definition rs_char_from_u32 (u : N) : option N :=
+  if (u <? 55296) || ((57343 <? u) && (u <=? 1114111)) then Some u else None.
+Definition rs_len_utf16 (c : N) : nat := if c <? 65536 then 1%nat else 2%nat.
+Definition rs_len_utf8 (c : N) : nat :=
+  if c <? 128 then 1%nat else if c <? 2048 then 2%nat else if c <? 65536 then 3%nat else 4%nat.
+(* char::decode_utf16(units).next(): None on an empty input; a non-surrogate unit is itself; a high surrogate followed
+   by a low surrogate is the supplementary character; anything else is an error for that one unit *)
+Definition rs_decode_utf16_first (l : list N) : option (rresult N unit) :=
+  match l with
+  | [] => None
+  | c :: r =>
+    if (c <? 55296) || (57343 <? c) then Some (ROk c)
+    else if c <=? 56319 then
+      match r with
+      | d :: _ => if (56320 <=? d) && (d <=? 57343)
+                  then Some (ROk (65536 + (c - 55296) * 1024 + (d - 56320)))
+                  else Some (RErr tt)
+      | [] => Some (RErr tt)
+      end
+    else Some (RErr tt)
+  end.
+Local Close Scope N_scope.
+(* `&v[a..]` *)
+Definition rs_slice_from {A} (l : list A) (a : nat) : res (list A) :=
+  if (a <=? length l)%nat then Ok (skipn a l) else Panic site_index.
+
 (* The two traits a generic function is parametrised by.  A text is the list of its code units (u16) or
    of its scalar values (str), as in ModelText.v; the instances are built from the model's encodings. *)
 Record rs_text_source := {
